@@ -26,12 +26,20 @@ def _series(rng, n):
 def _cseries(rng, n):
     return [[a, b] for a, b in zip(_series(rng, n), _series(rng, n))]
 
+def _sym(rng):
+    """zero sample covariance with both components varying (symmetric design, dyadic: exact in binary64)"""
+    x0 = rng.randint(-8, 8) / 4.0; y0 = rng.randint(-8, 8) / 4.0; a = rng.randint(1, 8) / 4.0; b = rng.randint(1, 8) / 4.0
+    l = [[x0 + sa * a, y0 + sb * b] for sa in (1, -1) for sb in (1, -1)] * rng.randint(1, 2)
+    rng.shuffle(l)
+    return l
+
 def gen_session(rng):
     """-> script: list of steps (JSON-able)"""
     S = []; targets = []; disturb = []
     rc = lambda: round(rng.uniform(-3, 3), 2) or 1.0
     nk = rng.randint(3, 8)
-    S.append(['estc', 'k', _cseries(rng, nk)]); targets.append(('k', nk, 'c'))       # declared first: lowest uids
+    kdata = _sym(rng) if rng.random() < 0.3 else _cseries(rng, nk); nk = len(kdata)
+    S.append(['estc', 'k', kdata]); targets.append(('k', nk, 'c'))       # declared first: lowest uids
     order = ['mer', 'mec', 'estc2', 'est']; rng.shuffle(order)
     have = {}
     for what in order:
@@ -59,6 +67,7 @@ def gen_session(rng):
         names, n = have['mer']
         S.append(['lin', 'yr', [[rc(), r] for r in names]]); targets.append(('yr', n, 'r'))
     S.append(['lin', 'yk', [[[rc(), rc()], 'k']]]); targets.append(('yk', nk, 'c'))
+    S.append(['lin_components', 'yk2', rc(), rc(), 'k']); targets.append(('yk2', nk, 'r'))     # a*k.real + b*k.imag
     # disturbances: k (finite dof, declared first, so processed and accumulated first) times something that cannot be finished
     if 'mer' in have:
         names, _ = have['mer']
@@ -97,6 +106,8 @@ def run_session(script, ctx=41):
             for c, nm in st[2]:
                 y = y + (complex(*c) if isinstance(c, (list, tuple)) else c) * env[nm]
             env[st[1]] = y
+        elif op == 'lin_components':
+            env[st[1]] = st[2] * env[st[4]].real + st[3] * env[st[4]].imag
         elif op == 'mix_real_ensemble':
             env[st[1]] = env[st[2]] * (env[st[3]] + 1j * env[st[4]])
         elif op == 'mix_one_component':
